@@ -684,41 +684,41 @@ impl PModel {
             .collect()
     }
 
-    /// SGR decoding per C08.  Anything outside the well-formed colour encodings sets
-    /// `sgr_malformed` (convention U6) and is skipped.
+    /// SGR decoding per C08.  "Unknown parameters are skipped without disturbing their
+    /// neighbours": a 38 / 48 that is not followed by a well-formed colour continuation is such an
+    /// unknown parameter - it alone is skipped and the following parameters are read normally.
+    /// Only three situations stay unjudged (convention U6, `sgr_malformed`): a ';'-form colour
+    /// that is cut short by the END of the parameter list after a valid selector (`38;5`,
+    /// `38;2;r;g`), a colour component above 255, and a ';'-form component that itself carries
+    /// sub-parameters.
     fn sgr(&mut self) -> Vec<Sg> {
         let ps: Vec<Vec<u32>> = self.params.clone();
         let mut out = Vec::new();
         let mut i = 0;
-        let byte = |v: u32, bad: &mut bool| -> u8 {
+        let mut bad = false;
+        let mut byte = |v: u32, bad: &mut bool| -> u8 {
             if v > 255 {
                 *bad = true;
             }
             v as u8
         };
-        let mut bad = false;
         while i < ps.len() {
             let p = &ps[i];
             i += 1;
             if p.len() > 1 {
-                // ':' form: only 38/48 colours are defined
-                let fg = p[0] == 38;
+                // ':' form: only the exact 38 / 48 colour shapes are defined; anything else with
+                // sub-parameters (4:3, 38:5, 38:2:1:2, 38:5:1:2 ...) is an unknown parameter
                 if p[0] == 38 || p[0] == 48 {
+                    let fg = p[0] == 38;
                     let c = match p.as_slice() {
                         [_, 5, n] => Some(MColor::Idx(byte(*n, &mut bad))),
-                        [_, 2, r, g, b] | [_, 2, _, r, g, b] => {
-                            Some(MColor::Rgb(byte(*r, &mut bad), byte(*g, &mut bad), byte(*b, &mut bad)))
-                        }
-                        _ => {
-                            bad = true;
-                            None
-                        }
+                        [_, 2, r, g, b] | [_, 2, _, r, g, b] => Some(MColor::Rgb(byte(*r, &mut bad), byte(*g, &mut bad), byte(*b, &mut bad))),
+                        _ => None,
                     };
                     if let Some(c) = c {
                         out.push(if fg { Sg::Fg(c) } else { Sg::Bg(c) });
                     }
                 }
-                // any other code with sub-parameters (e.g. 4:3) is unknown: skipped
                 continue;
             }
             let v = p[0];
@@ -744,31 +744,30 @@ impl PModel {
                 90..=97 => out.push(Sg::Fg(MColor::Idx((v - 90 + 8) as u8))),
                 100..=107 => out.push(Sg::Bg(MColor::Idx((v - 100 + 8) as u8))),
                 38 | 48 => {
-                    // ';' form: 38;5;n  or 38;2;r;g;b, each following parameter without sub-parts
-                    let simple = |k: usize| ps.get(i + k).filter(|q| q.len() == 1).map(|q| q[0]);
-                    match simple(0) {
-                        Some(5) => match simple(1) {
-                            Some(n) => {
-                                let c = MColor::Idx(byte(n, &mut bad));
-                                out.push(if v == 38 { Sg::Fg(c) } else { Sg::Bg(c) });
-                                i += 2;
-                            }
-                            None => {
-                                bad = true;
-                            }
-                        },
-                        Some(2) => match (simple(1), simple(2), simple(3)) {
-                            (Some(r), Some(g), Some(b)) => {
-                                let c = MColor::Rgb(byte(r, &mut bad), byte(g, &mut bad), byte(b, &mut bad));
-                                out.push(if v == 38 { Sg::Fg(c) } else { Sg::Bg(c) });
-                                i += 4;
-                            }
-                            _ => {
-                                bad = true;
-                            }
-                        },
-                        _ => {
+                    // ';' form: the selector must be a plain 5 or 2
+                    let selector = ps.get(i).filter(|q| q.len() == 1).map(|q| q[0]);
+                    let need = match selector {
+                        Some(5) => 1,
+                        Some(2) => 3,
+                        _ => 0, // not a colour continuation: the 38 / 48 alone is skipped
+                    };
+                    if need > 0 {
+                        if i + need >= ps.len() {
+                            // cut short by the end of the list: consumed or re-read? not pinned down
                             bad = true;
+                            i = ps.len();
+                        } else {
+                            let comps: Vec<&Vec<u32>> = (1..=need).map(|k| &ps[i + k]).collect();
+                            if comps.iter().any(|q| q.len() > 1) {
+                                bad = true;
+                            }
+                            let c = if need == 1 {
+                                MColor::Idx(byte(comps[0][0], &mut bad))
+                            } else {
+                                MColor::Rgb(byte(comps[0][0], &mut bad), byte(comps[1][0], &mut bad), byte(comps[2][0], &mut bad))
+                            };
+                            out.push(if v == 38 { Sg::Fg(c) } else { Sg::Bg(c) });
+                            i += 1 + need;
                         }
                     }
                 }
